@@ -185,7 +185,7 @@ def check_program(ctx, prog, built, insns, inputs_list):
                                  "destination's representation", case, f"got={got} want={sorted(want)[:2]}", cls)
                 ok2 = ctx.require(not changed, "another owned register or declared variable changed", case,
                                   "changed=" + ",".join(changed), cls)
-                status.append(("ok:" + inp["mode"]) if ok and ok2 else "fail:" + str(cls))
+                status.append(("ok:" if ok and ok2 else "fail:" + str(cls) + ":") + inp["mode"])
                 if not (ok and ok2):
                     break
             regs, varbytes = regs2, vb2
